@@ -49,7 +49,20 @@ def validate(d):
         jx = os.path.join(scratch, "junit.xml")
         sh(f"/venv/bin/python -m pytest -ra -q -p no:cacheprovider --timeout=900 --continue-on-collection-errors --junitxml={jx}", cwd=wt, env=env)
         passed = junit_pass(jx) if os.path.exists(jx) else set()
-        res["stable_ids_not_passing_with_change"] = sorted(STABLE - passed)
+        missing = sorted(STABLE - passed)
+        if missing and len(missing) <= 10:
+            # a stable id that failed once is re-run on its own (timing-sensitive thread / ASH tests flake under load)
+            still = []
+            for tid in missing:
+                mod, name = tid.split("::", 1)
+                nodeid = mod.replace(".", "/") + ".py::" + name
+                ok = any(sh(f"/venv/bin/python -m pytest -q -p no:cacheprovider --timeout=900 '{nodeid}'", cwd=wt, env=env).returncode == 0
+                         for _ in range(2))
+                if not ok:
+                    still.append(tid)
+            res["stable_ids_flaky_rerun_ok"] = sorted(set(missing) - set(still))
+            missing = still
+        res["stable_ids_not_passing_with_change"] = missing
         r = sh(demo, cwd=wt, env=env)
         res["demo_rc_mutated"] = r.returncode
         res["demo_tail_mutated"] = (r.stdout + r.stderr)[-600:]
